@@ -585,6 +585,65 @@ func genC04(g *gen) {
 		g.check(v == "ok true", "valid-accepted", "valid signature not accepted: "+v, g.ops[len(g.ops)-1])
 	}
 	// valid triples at every height 4 … 30 and each hash function (crafted through the model; no key of that size is built)
+	// right after an accepted verification: inputs that differ from the accepted one in ways a weak fingerprint (a
+	// checksum, a sum, an xor, a concatenation without lengths) would not see — each must be judged on its own
+	g.note("related inputs right after an accepted signature")
+	{
+		t := ts[0]
+		valid := fmt.Sprintf("x.verify 16 %s %s %s", hx(t.msg), hx(t.sig), hx(t.pk[:]))
+		crcPattern := func(poly uint32) []byte { // the generator polynomial (with its x^32 term) in the bit order of a reflected CRC
+			bits := []byte{1}
+			for i := 31; i >= 0; i-- {
+				bits = append(bits, byte(poly>>uint(i))&1)
+			}
+			out := make([]byte, 5)
+			for i, b := range bits {
+				out[i/8] |= b << uint(i%8)
+			}
+			return out
+		}
+		var variants [][2][]byte // (message, signature)
+		for _, poly := range []uint32{0x04C11DB7, 0x1EDC6F41, 0x741B8CD7} {
+			pat := crcPattern(poly)
+			for _, where := range []int{0, 1, 2} {
+				m2, s2 := append([]byte{}, t.msg...), append([]byte{}, t.sig...)
+				switch where {
+				case 0:
+					if len(m2) < 5 {
+						m2 = append(m2, make([]byte, 5-len(m2))...)
+					}
+					for i, b := range pat {
+						m2[i] ^= b
+					}
+				case 1:
+					for i, b := range pat {
+						s2[len(s2)-40+i] ^= b
+					}
+				default:
+					for i, b := range pat {
+						s2[100+i] ^= b
+					}
+				}
+				variants = append(variants, [2][]byte{m2, s2})
+			}
+		}
+		sw := append([]byte{}, t.sig...) // two bytes swapped (same sum, same xor)
+		sw[50], sw[51] = sw[51], sw[50]
+		variants = append(variants, [2][]byte{t.msg, sw})
+		fl := append([]byte{}, t.sig...) // the same bit flipped in two bytes (same xor)
+		fl[60] ^= 0x10
+		fl[61] ^= 0x10
+		variants = append(variants, [2][]byte{t.msg, fl})
+		variants = append(variants, [2][]byte{append(append([]byte{}, t.msg...), t.sig[:32]...), t.sig[32:]}) // boundary moved
+		variants = append(variants, [2][]byte{t.msg[:len(t.msg)-1], append([]byte{t.msg[len(t.msg)-1]}, t.sig...)})
+		for _, v := range variants {
+			ok := g.op("%s", valid)
+			g.check(ok == "ok true", "valid-accepted", "valid signature not accepted: "+ok, valid)
+			line := fmt.Sprintf("x.verify 16 %s %s %s", hx(v[0]), hx(v[1]), hx(t.pk[:]))
+			out := g.op("%s", line)
+			g.check(out != "ok true", "related-input-rejected", "right after an accepted signature, a different (message, signature) pair is accepted: "+trunc(line, 80), valid, line)
+		}
+	}
 	g.corpusSignatures()
 	g.note("valid triples at heights 4..30")
 	hts := []int{4, 8, 10, 14, 16, 18, 22, 26, 30}
